@@ -211,6 +211,10 @@ pub struct World {
 
     // polls
     pub poll_seq: u64,
+    /// collection polls that polled at least one child or returned Pending (C13 delay is counted in these:
+    /// a poll that hands out a parked output or an upstream error without touching a child is progress
+    /// of a different kind and says nothing about fairness)
+    pub eff_polls: u64,
     pub in_poll: bool,
     pub subject_alive: bool,
     pub subject_dropping: bool,
@@ -259,6 +263,14 @@ pub struct World {
     /// (a poll may hand out a parked output without polling any child)
     pub max_owed: usize,
     pub up_plans: Vec<Plan>,
+    /// ids of the children currently held (accepted, not finished, not dropped), oldest first; no upstream
+    pub held: Vec<Cid>,
+    /// children polled during the current call
+    pub polled_list: Vec<Cid>,
+    /// futures that finished but whose output has not come out yet
+    pub parked: i64,
+    /// ordered adapters: every future below this id has been yielded
+    pub scan_from: usize,
     pub epoch: u32,
     pub active: bool,
     /// 0 collection, 1 merge, 2 adapter, 3 join_all, 4 try_join_all
@@ -276,6 +288,7 @@ impl World {
             trace: false,
             log: Vec::new(),
             poll_seq: 0,
+            eff_polls: 0,
             in_poll: false,
             subject_alive: false,
             subject_dropping: false,
@@ -316,6 +329,10 @@ impl World {
             max_cap: 0,
             max_owed: 0,
             up_plans: Vec::new(),
+            held: Vec::new(),
+            polled_list: Vec::new(),
+            parked: 0,
+            scan_from: 0,
             epoch: 0,
             active: false,
             class: 0,
@@ -377,14 +394,26 @@ impl World {
     /// the subject accepted this child (push accepted, collected, or pulled from upstream)
     pub fn accept(&mut self, id: Cid) {
         let seq = self.poll_seq;
+        let eff = self.eff_polls;
         let n = self.pushes_accepted;
         let c = &mut self.children[id as usize];
         c.accepted = true;
         c.dirty = true;
         c.accept_seq = seq;
-        c.dirty_since = seq;
+        c.dirty_since = eff;
         c.pushed_seq = n;
+        let up = c.role == Role::Upstream;
         self.pushes_accepted += 1;
+        if !up {
+            self.held.push(id);
+        }
+    }
+
+    /// the child stopped being held (finished or dropped)
+    pub fn unhold(&mut self, id: Cid) {
+        if let Some(p) = self.held.iter().position(|&h| h == id) {
+            self.held.remove(p);
+        }
     }
 
     pub fn new_tok(&mut self, kind: TokKind, child: Cid, seq: u32) -> u32 {
@@ -400,24 +429,19 @@ impl World {
     }
 
     pub fn held_ids(&self) -> Vec<Cid> {
-        (0..self.children.len() as Cid)
-            .filter(|&i| self.children[i as usize].held() && self.children[i as usize].role != Role::Upstream)
-            .collect()
+        self.held.clone()
     }
     pub fn held_count(&self) -> usize {
-        self.children
-            .iter()
-            .filter(|c| c.held() && c.role != Role::Upstream)
-            .count()
+        self.held.len()
     }
 
     fn held_child_with_slot(&self, slot: usize) -> Option<Cid> {
         if slot == 0 {
             return None;
         }
-        for (i, c) in self.children.iter().enumerate() {
-            if c.slot == slot && c.held() && c.role != Role::Upstream {
-                return Some(i as Cid);
+        for &i in &self.held {
+            if self.children[i as usize].slot == slot {
+                return Some(i);
             }
         }
         None
@@ -437,7 +461,7 @@ impl World {
         }
         match self.held_child_with_slot(slot) {
             Some(t) => {
-                let seq = self.poll_seq;
+                let seq = self.eff_polls;
                 let in_poll = self.in_poll;
                 let lpp = self.last_poll_pending;
                 let c = &mut self.children[t as usize];
@@ -651,11 +675,13 @@ impl World {
         // the obligation covers children pushed before that poll began, or woken since their own last poll
         let pseq = self.poll_seq;
         let dirty: Vec<Cid> = self
-            .children
+            .held
             .iter()
-            .enumerate()
-            .filter(|(_, c)| c.held() && c.dirty && c.role != Role::Upstream && (c.dirty_wake || c.accept_seq < pseq))
-            .map(|(i, _)| i as Cid)
+            .copied()
+            .filter(|&i| {
+                let c = &self.children[i as usize];
+                c.dirty && (c.dirty_wake || c.accept_seq < pseq)
+            })
             .collect();
         if let Some(&d) = dirty.first() {
             let budget = self.child_polls_in_call >= BUDGET;
